@@ -165,7 +165,7 @@ pub fn run(ctx: &mut Ctx) {
         }
     }
     ctx.stratum("R-random-compound-ranges", false);
-    let n = ctx.tier.pick(40_000u64, 4_000_000u64);
+    let n = ctx.tier.n(40_000, 4_000_000);
     for i in 0..n {
         if !ctx.take() {
             continue;
@@ -177,7 +177,7 @@ pub fn run(ctx: &mut Ctx) {
         from_text(ctx, &ast.render(&sp));
     }
     ctx.stratum("S-set-operation-results", false);
-    let n = ctx.tier.pick(40_000u64, 4_000_000u64);
+    let n = ctx.tier.n(40_000, 4_000_000);
     for i in 0..n {
         if !ctx.take() {
             continue;
